@@ -933,6 +933,16 @@ Definition step (s : sys) (e : event) : res sys :=
       check in_user_code (a_phase x) else 4402 ;;
       check Nat.eqb (a_bcur x) (length (filter (fun c => Nat.eqb (fst c) ty) (a_children x))) else 4403 ;;
       Acc s
+  | EvAbandon o =>
+      (* the caller of a call made through an address dropped the call's future before the
+         answer came: nobody will receive it; the message stays where it is and is handled
+         like any other *)
+      p <- get_op s o 4601 ;;
+      check negb (op_done p) else 4602 ;;
+      check (match op_k p with XCall => true | _ => false end) else 4603 ;;
+      check negb (op_w p) && Nat.eqb (op_htx p) 0 && Nat.eqb (op_hftx p) 0 else 4604 ;;
+      check (match op_imm p, op_reg p with None, None => true | _, _ => false end) else 4605 ;;
+      Acc (del_pend o (put_op s o (set_op_done true p)))
   | EvIdentity a same =>
       (* a restart keeps the actor's identity: the context its new incarnation is started with
          carries the id every handle issued before carries *)
